@@ -3,6 +3,31 @@ use std::vec;
 
 use laythe_core::{object::Class, utils::IdEmitter, value::Value, ObjRef};
 
+/// Verification hook (compiled only with `--cfg laythe_verif`): force every inline cache lookup
+/// to miss, so each property access and invoke takes the slow path
+#[cfg(laythe_verif)]
+pub mod verif {
+  use std::cell::Cell;
+
+  thread_local! {
+    static OFF: Cell<bool> = const { Cell::new(false) };
+    static LOOKUPS: Cell<u64> = const { Cell::new(0) };
+  }
+
+  pub fn set_caches_off(off: bool) {
+    OFF.with(|o| o.set(off));
+  }
+
+  pub fn caches_off() -> bool {
+    LOOKUPS.with(|l| l.set(l.get() + 1));
+    OFF.with(|o| o.get())
+  }
+
+  pub fn lookups() -> u64 {
+    LOOKUPS.with(|l| l.get())
+  }
+}
+
 /// The cache for property access and setting
 #[derive(Clone, Debug)]
 struct PropertyCache {
@@ -53,6 +78,10 @@ impl InlineCache {
   /// for the provided class
   pub fn get_property_cache(&self, inline_slot: usize, class: ObjRef<Class>) -> Option<usize> {
     debug_assert!(inline_slot < self.property.len());
+    #[cfg(laythe_verif)]
+    if verif::caches_off() {
+      return None;
+    }
     match unsafe { self.property.get_unchecked(inline_slot) } {
       Some(cache) => {
         if cache.class == class {
@@ -91,6 +120,10 @@ impl InlineCache {
   /// for the provided class
   pub fn get_invoke_cache(&self, inline_slot: usize, class: ObjRef<Class>) -> Option<Value> {
     debug_assert!(inline_slot < self.invoke.len());
+    #[cfg(laythe_verif)]
+    if verif::caches_off() {
+      return None;
+    }
     match unsafe { self.invoke.get_unchecked(inline_slot) } {
       Some(cache) => {
         if cache.class == class {
